@@ -298,7 +298,11 @@ theorem run_refines_from (portable : Bool) {R : Nat} (ops : List Op) {s : St} {f
     std::upper_bound bisection is part of the model and proved equal to `ubSpec`) — on any number of vector objects runs on the
     igris code (both copies) without a fault, returns exactly what std::vector returns (positions,
     comparison results = list equality / lexicographic order, at() throwing exactly when std's does) and
-    leaves every vector with std::vector's size and element sequence. -/
+    leaves every vector with std::vector's size and element sequence.
+    ONE EXCEPTION, by design of the reference: `Op.eraseTo` (igris' one-argument `erase(iterator newend)`) is
+    specified as TRUNCATION (`take k`), which is what the code does and NOT what std::vector::erase(pos) does —
+    finding C02-erase-pos; the comparison with std's erase(pos) is `erase_iterator_partial` /
+    `erase_iterator_truncates` / `erase_iterator_witness` below. -/
 theorem vector_refines_list (portable : Bool) (R : Nat) (ops : List Op)
     (hR : ∀ op ∈ ops, ∀ r ∈ op.regs, r < R)
     {f' : Nat → List Val} {rets : List Ret} (hs : runSpec (fun _ => []) ops = some (f', rets)) :
@@ -539,7 +543,9 @@ example : Sorted ltInt (keysOf [(1, 10), (4, 40)]) := by decide
   requires; a linear order is not needed: "smaller last digit" makes 11 and 21 one key).  Two keys are the
   same key when neither is before the other.  std::map = a function from keys to the stored entry with the
   same key (`mapSpecNext` / `mapRetOk` in Flat.lean), std::set = a function from keys to the stored element
-  with the same key (`setSpecNext` / `setRetOk`).  The driver / harness instantiate std::less<int>,
+  with the same key (`setSpecNext` / `setRetOk`).  These theorems are about the element LISTS of the storage; that
+  the storage — an igris::vector in the compat build — behaves like that list, without a lifetime fault, is composed
+  formally in `flat_set_over_vector_refines` / `flat_map_over_vector_refines` further down.  The driver / harness instantiate std::less<int>,
   std::greater<int>, "smaller last digit" and std::greater<std::string> on the decimal text. -/
 
 /-- the hypothesis `StrictWeak lt` is satisfiable, also by an order that is not linear -/
